@@ -131,7 +131,7 @@ def solve_all(obligations, timeout_s=10, jobs=None, use_cvc5=True, extra_axioms=
         smt_ = to_smt2(ob, extra_axioms)
         import hashlib
         QHASH[nm] = hashlib.sha256(smt_.encode()).hexdigest()[:16]
-        tasks.append((nm, smt_, int((min(timeout_s, 2) if ob.kind == 'canary' else timeout_s) * 1000), use_cvc5 and ob.kind != 'canary'))
+        tasks.append((nm, smt_, int((min(timeout_s, 2) if ob.kind == 'canary' else max(timeout_s, getattr(ob, 'budget', None) or 0)) * 1000), use_cvc5 and ob.kind != 'canary'))
     out = {}
     if not tasks:
         return out
